@@ -408,6 +408,8 @@ Section HeapProofs.
     destruct (siftdown key (S leaf) (upd h' leaf lastelt) 0 lastelt leaf) eqn:Es; [discriminate|].
     exfalso. revert Es. apply siftdown_total; [lia|]. rewrite upd_length. lia.
   Qed.
+  Theorem heap_total h x : heappush key h x <> None /\ (h <> [] -> heappop key h <> None).
+  Proof. split; [apply heappush_total|apply heappop_total]. Qed.
 End HeapProofs.
 
 (* the six equal-priority items of the design note leave in the order CPython produces *)
